@@ -286,6 +286,30 @@ def check_history(case, ctx: Ctx):
             ex = m.exact
             m = Model(h)
             m.exact = ex
+        elif name == "assign":
+            # public assignment h.frequencies = ... / h.errors2 = ... with an array of another element type
+            attr, adt, vk = op[1], op[2], op[3]
+            n = int(np.prod(shape))
+            vals = {"ints": [(i % 3) + 1 for i in range(n)], "halves": [0.5 + i for i in range(n)], "big": [40000 + i for i in range(n)]}[vk]
+            if adt == "list":
+                new = np.array(vals).reshape(shape).tolist()
+            else:
+                if np.dtype(adt).kind == "i" and vk == "halves":
+                    vals = [int(v + 0.5) for v in vals]
+                if vk == "big" and adt in ("int16", "float16"):
+                    vals = [300 + i for i in range(n)]
+                new = np.array(vals, dtype=adt).reshape(shape)
+            ok, exc = ctx.maybe(setattr, h, attr, new)
+            if ok:
+                # accepted: nothing of what was assigned may be lost (the dtype is promoted as needed)
+                tgt = m.freq if attr == "frequencies" else m.err2
+                tgt[:] = [Fx(v) for v in vals]
+                kinds.add("assign")
+                ctx.label("assign_" + attr)
+            else:
+                after = snapshot(h)
+                require(snap_equal(before, after), "refused_assignment_changed_something", lambda: snap_diff(before, after))
+                ctx.label("assign_refused")
         elif name == "set_dtype":
             target = np.dtype(op[1])
             allowed = conversion_allowed(h, target)
@@ -338,7 +362,9 @@ def scalars(draw):
 @st.composite
 def one_op(draw):
     name = draw(st.sampled_from(["fill", "fill", "fill_n", "fill_n", "add", "iadd", "sub", "isub", "mul", "imul", "div", "idiv", "normalize", "merge",
-                                 "slice", "set_dtype", "set_dtype", "set_dtype", "add_shifted", "add_shifted"]))
+                                 "slice", "set_dtype", "set_dtype", "set_dtype", "add_shifted", "add_shifted", "assign"]))
+    if name == "assign":
+        return [name, draw(st.sampled_from(["frequencies", "errors2"])), draw(st.sampled_from(DTYPES[:6] + ["list"])), draw(st.sampled_from(["ints", "halves", "big"]))]
     if name == "add_shifted":
         return [name, draw(st.sampled_from(DTYPES[:6])), draw(st.integers(-4, 6)), draw(st.booleans())]
     ts = st.lists(st.floats(0, 0.999), min_size=2, max_size=2)
